@@ -111,8 +111,16 @@ class MonCache(sched._Shared):
 
     def get_set(self, key, getter):
         sched.yield_point(f'inner:{key}', 'get_set')
+        if self.data.get(key) == ('empty',):
+            # like DiskCacher: a zero-length entry (a write cut at byte 0) is dropped and, if a getter was given, written again
+            if self.writers[key]: self._bad('two writers populate the same key', key)
+            self.data.pop(key, None)
+            if getter is None: raise TypeError("'NoneType' object is not iterable")
+            if self.readers[key]: self._bad('entry written while being read', key)
         if key not in self.data:
             if getter is None:
+                if getattr(self, 'had_empty', False):      # DiskCacher: another caller dropped the zero-length entry - iterating None raises
+                    raise TypeError("'NoneType' object is not iterable")
                 self._bad('missing entry served', key)
                 return MonValue(self, key)
             if self.writers[key]: self._bad('two writers populate the same key', key)
@@ -165,7 +173,7 @@ class MonValue:
 OPS = ['get', 'get_getter_raises', 'get_body_raises', 'rmv', 'get_nested']
 
 
-def run_op(cacher, inner, op, key, who):
+def run_op(cacher, inner, op, key, who, empty_ok=False):
     k = KEYS[key]
 
     def getter():
@@ -200,12 +208,13 @@ def run_op(cacher, inner, op, key, who):
         raise
     except BaseException as e:       # noqa
         sched.record(('raised', who, op, key, type(e).__name__))
-        inner._bad(f'caller got unexpected {type(e).__name__}', str(e)[:80])
+        if not (empty_ok and isinstance(e, TypeError)):      # reading a zero-length entry may raise (it is never served as complete)
+            inner._bad(f'caller got unexpected {type(e).__name__}', str(e)[:80])
 
 
-def run_prog(cacher, inner, prog, who):
+def run_prog(cacher, inner, prog, who, empty_ok=False):
     for op, key in prog:
-        run_op(cacher, inner, op, key, who)
+        run_op(cacher, inner, op, key, who, empty_ok)
     me = threading.current_thread().ident
     held = {str(k[1]): v for k, v in cacher._locks.items() if v != 0 and k[0] == me}
     sched.record(('locks', who, held))
@@ -216,13 +225,18 @@ def make_body(case):
     def body():
         WRITE_EPOCH[0] = 0
         inner = MonCache()
+        for k, st in (case.get('initial') or {}).items():
+            inner.data[KEYS[k]] = ('empty',) if st == 'empty' else ('complete', f'value-of-{KEYS[k]}')
+            if st == 'empty': inner.had_empty = True
         array = MonArray(None, [0] * 2 ** 16)
         lock = sched.FAKE.Lock()
         cacher = ConcurrentCacher(inner, array, lock)
         if mode == 'threads':
-            ts = [threading.Thread(target=run_prog, args=(cacher, inner, p, i), daemon=True) for i, p in enumerate(progs)]
+            eo = 'empty' in (case.get('initial') or {}).values()
+            ts = [threading.Thread(target=run_prog, args=(cacher, inner, p, i, eo), daemon=True) for i, p in enumerate(progs)]
         else:
-            ts = [sched.FakeProcess(target=run_prog, args=(cacher, inner, p, i)) for i, p in enumerate(progs)]
+            eo = 'empty' in (case.get('initial') or {}).values()
+            ts = [sched.FakeProcess(target=run_prog, args=(cacher, inner, p, i, eo)) for i, p in enumerate(progs)]
         for t in ts: t.start()
         for t in ts: t.join()
         cells = {i: v for i, v in enumerate(array._cells) if v != 0}
@@ -255,7 +269,8 @@ def feature(case):
     ops = sorted({op for p in case['progs'] for op, _ in p})
     keys = {k for p in case['progs'] for _, k in p}
     rel = 'same-key' if len(keys) == 1 else ('colliding-keys' if keys <= {'k1', 'k2'} else 'mixed-keys')
-    return f"{case['mode']} {'+'.join(ops)} {rel}"
+    init = ''.join(f' entry-initially-{v}' for v in sorted(set((case.get('initial') or {}).values())))
+    return f"{case['mode']} {'+'.join(ops)} {rel}{init}"
 
 
 # ---------------------------------------------------------------- part B: disk faults
@@ -316,6 +331,12 @@ class C19(Check):
                 for b in (('get', 'k1'), ('rmv', 'k1'), ('get', 'k2')):
                     if tier == 'quick' and mode == 'procs' and b[1] == 'k2': continue
                     out.append({'kind': 'sched', 'mode': mode, 'progs': [p, [b]]})
+        # entries that exist before the callers start: a complete one (both callers take the hit path) and a zero-length one
+        for mode in ('threads', 'procs'):
+            for init in ('complete', 'empty'):
+                for b in ('get', 'rmv', 'get_body_raises'):
+                    if tier == 'quick' and mode == 'procs' and b != 'get': continue
+                    out.append({'kind': 'sched', 'mode': mode, 'progs': [[('get', 'k1')], [(b, 'k1')]], 'initial': {'k1': init}})
         # three callers on ONE key: two getters and a remover (a gap in a lock hand-over is only visible to a third party)
         for mode in ('threads', 'procs'):
             for c3 in (('rmv', 'k1'), ('get', 'k1')):
